@@ -246,8 +246,10 @@ CLAIMS = {
              "generates, yields exactly CPython's slice.indices()/len(range()) extent, stride*step, the adjusted start offset, "
              "IndexError for out-of-range indices and ValueError for a zero step, leaving *dst untouched on errors; and that _unellipsify_index_tuple (the tuple-index normaliser of the memoryview object, cut "
              "mechanically out of MemoryView.pyx on every run, three loop invariants) returns exactly ndim entries and accepts no tuple "
-             "naming more dimensions than the view has (IndexError / TypeError otherwise). Kernel: these two "
-             "functions, direct (non-indirect) dimensions.",
+             "naming more dimensions than the view has (IndexError / TypeError otherwise); and that the compiler's static layout of a sliced typed "
+             "memoryview (MemoryViewIndexNode.analyse_types, fragment unit) keeps a non-strided packing for a sliced axis only when the step is "
+             "absent or the constant 1 (a reversed or strided axis is never declared contiguous). Kernel: these "
+             "subjects, direct (non-indirect) dimensions.",
         note="Trusted: dv C front end + clang typing, z3, the slice.indices transcription (validated natively each run), CPython API "
              "stubs for the error path; for the .pyx function: the extraction drops the C types of parameters and locals (integers are mathematical), "
              "items are opaque identities, isinstance / PyIndex_Check uninterpreted. Unverified: _unellipsify (the non-tuple wrapper), the per-dimension driver loop (memview_slice),  compile-time generate_buffer_slice_code, "
